@@ -452,7 +452,7 @@ def field_corpus(t, e: Env) -> list:
 
 # --------------------------------------------------------------------------- generated classes
 
-CONST_VARIANTS = ("none", "ld", "acf")
+CONST_VARIANTS = ("none", "ld", "acf", "ldx")
 
 
 def const_decl(variant: str, e: Env) -> Dict[str, Any]:
@@ -463,6 +463,8 @@ def const_decl(variant: str, e: Env) -> Dict[str, Any]:
         return {"@context": f"https://ctx.{n.host}/v1", "@type": "T" + n.a}
     if variant == "acf":
         return {"cstr": "v" + n.a, "cnum": 0, "clist": [n.b, 1], "cflag": False}
+    if variant == "ldx":  # JSON-LD constants through the decorator, falsy values included
+        return {"@context": f"https://ctx.{n.host}/v1", "@type": "T" + n.a, "@version": 0, "@flag": False, "@note": "", "@list": []}
     raise ValueError(variant)
 
 
@@ -472,6 +474,8 @@ def apply_consts(cls, variant: str, e: Env):
         return ld(context=decl["@context"], type=decl["@type"])(cls)
     if variant == "acf":
         return add_const_fields({k: (list(v) if isinstance(v, list) else v) for k, v in decl.items()})(cls)
+    if variant == "ldx":
+        return ld(**{k[1:]: (list(v) if isinstance(v, list) else v) for k, v in decl.items()})(cls)
     return cls
 
 
